@@ -95,6 +95,33 @@ pub fn family(name: &str) -> Family {
                 probes: &["tenant"],
             }
         }
+        "emptyh" => Family {
+            name: "emptyh",
+            // a hierarchy that is still EMPTY when the master key is stored and reloaded, and that
+            // is emptied again by deletions: levels are added afterwards and keys for the upper
+            // levels must cover the lower ones
+            init: ops(&["add-dim A anarchy", "add A::x classic", "add-dim H hierarchy", "update", "keygen A::x"]),
+            alphabet: ops(&[
+                "rt-msk",
+                "add H::lo classic",
+                "add H::hi classic after lo",
+                "add H::mid hybrid after lo",
+                "del H::lo",
+                "del H::hi",
+                "rename H::lo l0",
+                "update",
+                "keygen H::hi",
+                "keygen H::mid && A::x",
+                "refresh 1 keep",
+                "refresh 1 drop",
+            ]),
+            enc_menu: vec!["A::x", "H::lo", "H::mid", "H::hi", "H::l0", "A::x && H::lo", "A::x && H::hi", "*"],
+            tags: Tags { open: "C03.a", deny: "C03.a" },
+            rt_bound: 2,
+            max_usks: 3,
+            rt_encs: false,
+            probes: &[],
+        },
         "edit" => Family {
             name: "edit",
             // three hierarchy levels and a key for the middle one: deletions below / above it
@@ -150,7 +177,7 @@ pub fn family(name: &str) -> Family {
             probes: &["tenant"],
         },
         "dis" => {
-            let mut a: Vec<String> = vec!["disable A::y".into(), "disable H::hi".into(), "update".into(), "rederive".into(), "rt-msk".into(), "add H::mid classic after lo".into()];
+            let mut a: Vec<String> = vec!["disable A::y".into(), "disable H::hi".into(), "update".into(), "rederive".into(), "rt-msk".into(), "add H::mid classic after lo".into(), "del H::lo".into(), "disable H::mid".into(), "rename A::y q".into(), "rename H::hi top".into()];
             a.extend(["A::y", "A::x", "H::hi", "*"].iter().map(|p| format!("rekey {p}")));
             a.extend(["A::y", "H::hi", "*"].iter().map(|p| format!("prune {p}")));
             a.push("keygen A::y && H::hi".into());
@@ -160,7 +187,7 @@ pub fn family(name: &str) -> Family {
                 // A::hi next to H::hi: the same attribute name in two dimensions
                 init: { let mut i = w_init(true); i.extend(ops(&["add A::hi classic", "update"])); i },
                 alphabet: ops(&a.iter().map(String::as_str).collect::<Vec<_>>()),
-                enc_menu: vec!["A::x", "A::y", "H::hi", "H::lo", "H::mid", "A::hi", "A::hi && H::hi", "H::hi && A::hi", "A::x && H::hi", "A::y && H::lo", "A::y && H::mid", "A::x || A::y", "*"],
+                enc_menu: vec!["A::x", "A::y", "H::hi", "H::lo", "H::mid", "A::hi", "A::hi && H::hi", "H::hi && A::hi", "A::x && H::hi", "A::y && H::lo", "A::y && H::mid", "A::x || A::y", "A::q", "A::q && H::lo", "H::top", "A::x && H::top", "*"],
                 tags: Tags { open: "C06.c", deny: "C06.e" },
                 rt_bound: 2,
                 max_usks: 3,
@@ -216,6 +243,21 @@ pub fn family(name: &str) -> Family {
                 enc_menu: vec!["A::x", "A::x || A::y", "A::x && H::hi || A::y && H::lo", "A::y", "H::hi", "A::x || A::y || H::lo || H::hi", "*"],
                 tags: Tags { open: "C18.o", deny: "C18.o" },
                 rt_bound: 0,
+                max_usks: 2,
+                rt_encs: false,
+                probes: &["recaps"],
+            }
+        }
+        "recapsrt" => {
+            // re-encapsulation by a master key that was stored and reloaded, after a right was
+            // re-keyed and then disabled, and after a disabled attribute was renamed
+            Family {
+                name: "recapsrt",
+                init: { let mut i = w_init(true); i.extend(ops(&["rekey A::y", "refresh 1 keep"])); i },
+                alphabet: ops(&["disable A::y", "disable H::hi", "update", "rt-msk", "rekey A::y", "rename A::y q", "refresh 1 keep"]),
+                enc_menu: vec!["A::x", "A::x || A::y", "A::y", "A::q", "A::x || A::q", "H::hi", "*"],
+                tags: Tags { open: "C18.o", deny: "C18.o" },
+                rt_bound: 1,
                 max_usks: 2,
                 rt_encs: false,
                 probes: &["recaps"],
